@@ -46,6 +46,11 @@ CLAIMED['C20'] = dict(
         'Correspondence: the whole scripted space (3 priors x data scripts <= 3 x checksum scripts <= 3 over 4 answers) through the in-process `responses` mock, plus body sizes 0 B / 1 B / > 1 MiB.',
    note='requests, streaming and hashlib are outside the model; crash/partial-write behaviour is not modelled.',
    tech='Lean 4 theorems by exhaustive case analysis of the decision tree (symbolic in hash and script tails) + differential correspondence against /repo', ref='§5 C20')
+CLAIMED['C02'] = dict(
+   text='Theorems parametric in what each operator computes (any element-wise functions, any channel selections, any order, any cell type): indexing a reader carrying deferred operations = applying them to the concatenated array, then indexing (composition with the C01 theorem), also with a trailing channel selector; deriving gives the clone the parent\'s operations plus one and, for every derivation history (parents, siblings, grandchildren), leaves the operations of every existing reader untouched (heap model of _append_op). '
+        'Correspondence: all operator chains of depth <= 2/3 over the 14 dunders + column selection with int/float scalars, random derivation trees with parents re-read after every derivation, on flat/npy/array/cbin and 6 dtypes; value AND dtype compared with eager NumPy; the Lean model supplies which cells and which operators in which order.',
+   note='Operator semantics and result dtypes are NumPy\'s (not modelled: the theorem is parametric); float pow restricted to exponents {0,1,2}; histories on which eager NumPy raises are discarded.',
+   tech='Lean 4 theorems (map/commutation lemmas, heap frame invariant by induction over derivations) + differential correspondence against /repo', ref='§5 C02')
 REASONS = {}
 
 checks = []
